@@ -497,6 +497,11 @@ def run_rescale(ctx):
             cov = np.isin(iu[0], [i, i + 1, i + 2]) & np.isin(iu[1], [i, i + 1, i + 2])
             a[i, cov] = base[cov] * 10.0 ** i
         proportional = True
+    if not chain and rng.integers(5) == 0:
+        # complete RDMs of whole-number dissimilarities (ratings) stored in an integer array: rescaling still multiplies
+        # each RDM by one positive constant
+        a = np.round(v * 100).astype(np.int64) + 1
+        proportional = False
     # overlap graph must be connected through the first (complete) RDM; each partial RDM needs >= 2 entries
     if any((~np.isnan(r)).sum() < 2 for r in a):
         ctx.count('rejected_degenerate')
